@@ -65,6 +65,16 @@ var carriers = []carrier{
 	}},
 	{"teredo server", func(v uint32) net.IP { b := b4(v); ip := net.ParseIP("2001::"); copy(ip[4:8], b[:]); return ip }},
 	{"v4-compatible ::a.b.c.d", func(v uint32) net.IP { b := b4(v); ip := make(net.IP, 16); copy(ip[12:], b[:]); return ip }},
+	// the local-use NAT64 prefix 64:ff9b:1::/48 (RFC 8215; IANA special-purpose registry, not globally reachable): an
+	// operator's NAT64 uses it with any RFC 6052 prefix length - here the /96 form (IPv4 in the last 32 bits) and the /48
+	// form (IPv4 in bits 48-63 and 72-87, the "u" octet between them zero)
+	{"nat64 local-use 64:ff9b:1::/48 (/96 form)", func(v uint32) net.IP { b := b4(v); ip := net.ParseIP("64:ff9b:1::"); copy(ip[12:], b[:]); return ip }},
+	{"nat64 local-use 64:ff9b:1::/48 (/48 form)", func(v uint32) net.IP {
+		b := b4(v)
+		ip := net.ParseIP("64:ff9b:1::")
+		ip[6], ip[7], ip[9], ip[10] = b[0], b[1], b[2], b[3]
+		return ip
+	}},
 }
 
 func report(t *testing.T, part string) (*verifkit.Report, func()) {
@@ -184,6 +194,8 @@ func floorV6(ip net.IP) (bool, string) {
 		return true, "ULA fc00::/7"
 	case ip[0] == 0xff:
 		return true, "multicast ff00::/8"
+	case ip[0] == 0x00 && ip[1] == 0x64 && ip[2] == 0xff && ip[3] == 0x9b && ip[4] == 0x00 && ip[5] == 0x01:
+		return true, "local-use NAT64 64:ff9b:1::/48 (RFC 8215): an IPv4-embedding translation prefix, not public unicast"
 	}
 	return false, ""
 }
@@ -192,7 +204,8 @@ func floorV6(ip net.IP) (bool, string) {
 func TestVerifC18IPv6(t *testing.T) {
 	rep, done := report(t, "ipv6")
 	defer done()
-	tails := [][14]byte{{}, {13: 1}, {0: 0xff, 13: 0xff}, {5: 1, 9: 0x7f, 10: 0, 11: 0, 12: 0, 13: 1}, {10: 10, 11: 0, 12: 0, 13: 5}, {8: 0xa9, 9: 0xfe, 10: 0xa9, 11: 0xfe}}
+	tails := [][14]byte{{}, {13: 1}, {0: 0xff, 13: 0xff}, {5: 1, 9: 0x7f, 10: 0, 11: 0, 12: 0, 13: 1}, {10: 10, 11: 0, 12: 0, 13: 5}, {8: 0xa9, 9: 0xfe, 10: 0xa9, 11: 0xfe},
+		{0: 0xff, 1: 0x9b, 2: 0x00, 3: 0x01, 10: 0xa9, 11: 0xfe, 12: 0xa9, 13: 0xfe}, {0: 0xff, 1: 0x9b, 2: 0x00, 3: 0x01, 4: 0xa9, 5: 0xfe, 7: 0xa9, 8: 0xfe}}
 	outcomes := map[string]bool{}
 	for h := 0; h < 1<<16; h++ {
 		for ti, tail := range tails {
@@ -214,7 +227,7 @@ func TestVerifC18IPv6(t *testing.T) {
 		rep.State(fmt.Sprintf("hextet %04x", h))
 	}
 	// the special single addresses
-	for _, s := range []string{"::", "::1", "::2", "fe80::1", "febf::1", "fec0::1", "feff::1", "fc00::1", "fdff::1", "ff02::1", "::ffff:127.0.0.1", "::ffff:8.8.8.8", "::127.0.0.1", "64:ff9b::7f00:1", "2002:7f00:1::"} {
+	for _, s := range []string{"::", "::1", "::2", "fe80::1", "febf::1", "fec0::1", "feff::1", "fc00::1", "fdff::1", "ff02::1", "::ffff:127.0.0.1", "::ffff:8.8.8.8", "::127.0.0.1", "64:ff9b::7f00:1", "2002:7f00:1::", "64:ff9b:1::a9fe:a9fe", "64:ff9b:1:a9fe:a9:fe00::"} {
 		ip := net.ParseIP(s)
 		got, reason := Refuse(ip)
 		rep.Eval()
@@ -232,7 +245,7 @@ func TestVerifC18IPv6(t *testing.T) {
 	}
 	rep.Transitions(int64(len(tails)) << 16)
 	rep.Trace()
-	rep.Bound("ipv6", "all 65536 leading hextets x 6 tails + named special addresses")
+	rep.Bound("ipv6", "all 65536 leading hextets x 8 tails + named special addresses")
 }
 
 type fakeResolver struct{ ips []net.IP }
